@@ -8,7 +8,9 @@
 // case grammar (one line, blank separated):
 //
 //	seq D <D> T <slot> S <self> M <manager> R <registrar> NX <next id> IN <a,b,..|-> A <n> acct* O <n> op*
-//	acct := id bal gratis code g m created lastacc parent ST <n> (k v kvflag)* LK <n> (h z slots kvflag)* PI <n> (h blob)*
+//	acct := id bal gratis code g m created lastacc parent ST <n> (k v kvflag)* LK <n> (h z slots kvflag)* PI <n> (h blob)* [RC items octets]
+//	        (RC: recorded counters given directly instead of derived from the entries: the stand-in for an account with a huge
+//	         footprint, on which only calls that read the counters are run)
 //	op   := new c l g m f i | upg c g m | xfer d amt l memo | ej d h | ck | wr k v | sol h z | fg h z | info s
 //	thr i o f | infox bal i o f | fps klen vlen | fpl z | der acct
 package verifacc
@@ -51,6 +53,9 @@ type Acct struct {
 	Stor                     []StorE
 	Look                     []LookE
 	Pre                      []PreE
+	HasRC                    bool // recorded counters overridden
+	RCItems                  uint32
+	RCOctets                 uint64
 }
 
 type Case struct {
@@ -115,6 +120,9 @@ func (a *Acct) Tokens() string {
 	fmt.Fprintf(&sb, " PI %d", len(a.Pre))
 	for _, p := range a.Pre {
 		fmt.Fprintf(&sb, " %s %s", h.Hex(p.H[:]), h.Hex(p.Blob))
+	}
+	if a.HasRC {
+		fmt.Fprintf(&sb, " RC %d %d", a.RCItems, a.RCOctets)
 	}
 	return sb.String()
 }
@@ -198,6 +206,12 @@ func parseAcct(t *tokens) Acct {
 		p.H = t.hash()
 		p.Blob = h.UnHex(t.next())
 		a.Pre = append(a.Pre, p)
+	}
+	if t.p < len(t.t) && t.t[t.p] == "RC" {
+		t.p++
+		a.HasRC = true
+		a.RCItems = t.u32()
+		a.RCOctets = t.u64()
 	}
 	return a
 }
@@ -308,8 +322,16 @@ func newMemory() *PVM.Memory {
 	return m
 }
 
+// Recorded returns the counters stored in ServiceInfo: derived from the entries, or given directly.
+func (a *Acct) Recorded() (uint32, uint64) {
+	if a.HasRC {
+		return a.RCItems, a.RCOctets
+	}
+	return a.Footprint()
+}
+
 func (a *Acct) build(kv *types.StateKeyVals, pool map[types.StateKey]poolEntry) types.ServiceAccount {
-	items, octets := a.Footprint()
+	items, octets := a.Recorded()
 	sa := types.ServiceAccount{
 		ServiceInfo: types.ServiceInfo{
 			CodeHash: types.OpaqueHash(a.Code), Balance: types.U64(a.Bal), MinItemGas: types.Gas(a.G), MinMemoGas: types.Gas(a.M),
